@@ -1136,6 +1136,7 @@ func runFile(c FileCase, o *vh.Obs) *vh.Failure {
 	}
 	defer cleanup()
 	path := filepath.Join(dir, c.Name)
+	os.MkdirAll(filepath.Dir(path), 0o755) // the library creates missing directories without permission bits (os.ModeDir): only root could write into them
 	if err := ply.Save(path, m, formats[f]); err != nil {
 		return vh.Failf("files/save-error", "Save(%q): %v", c.Name, err)
 	}
